@@ -78,27 +78,73 @@ theorem call_full (fc : FunCall) (h : fc.args.length = fc.paramTypes.length) (hu
     fcToGo fc = some (.call fc.callee fc.args) := by
   simp [fcToGo, h, hu]
 
-/-- under-application: a closure whose parameters are exactly the missing parameter types, in order,
-named _r0, _r1, …; its body calls the callee with the given arguments in source order followed by
-the closure parameters; the result type is the declared result (no `return` when it is unit) -/
-theorem call_partial (fc : FunCall) (h : fc.args.length < fc.paramTypes.length) :
+/-- the closure inside the emitted expression (a partial application whose given arguments are not all
+inert is wrapped in the bindings that evaluate them first) -/
+def cloOf : GoExpr → GoExpr
+  | .bound _ c => c
+  | e => e
+
+theorem paArgs_inert : ∀ (i : Nat) (args : List String) (inert : List Bool), (∀ b ∈ inert, b = true) →
+    paArgs i args inert = (args, []) := by
+  intro i args
+  induction args generalizing i with
+  | nil => intro inert _; rfl
+  | cons a as ih =>
+    intro inert h
+    have hh : inert.headD true = true := by
+      cases inert with
+      | nil => rfl
+      | cons b bs => exact h b List.mem_cons_self
+    have ht : ∀ b ∈ inert.tail, b = true := fun b hb => h b (List.mem_of_mem_tail hb)
+    simp only [paArgs, hh, if_true, ih (i + 1) inert.tail ht]
+
+theorem paArgs_length : ∀ (i : Nat) (args : List String) (inert : List Bool), (paArgs i args inert).1.length = args.length := by
+  intro i args
+  induction args generalizing i with
+  | nil => intro inert; rfl
+  | cons a as ih =>
+    intro inert
+    simp only [paArgs]
+    split <;> simp [ih]
+
+/-- under-application with inert given arguments (literals, variables, …): a closure whose parameters
+are exactly the missing parameter types, in order, named _r0, _r1, …; its body calls the callee with
+the given arguments in source order followed by the closure parameters; the result type is the
+declared result (no `return` when it is unit) -/
+theorem call_partial (fc : FunCall) (h : fc.args.length < fc.paramTypes.length) (hin : ∀ b ∈ fc.inert, b = true) :
     fcToGo fc = some (.closure
       ((restNames (fc.paramTypes.length - fc.args.length)).zip ((fc.paramTypes.drop fc.args.length).map toGo))
       (toGo fc.result) (!isUnit fc.result) fc.callee
       (fc.args ++ restNames (fc.paramTypes.length - fc.args.length))) := by
-  simp [fcToGo, h, Nat.not_lt_of_gt h, List.length_drop]
+  simp [fcToGo, h, Nat.not_lt_of_gt h, List.length_drop, paArgs_inert 0 fc.args fc.inert hin]
+
+/-- under-application in general: the same closure over what `paArgs` leaves for each given argument
+(itself, or the name `_p i` it was bound to), wrapped in the bindings — in argument order — when there
+are any (the given arguments are evaluated once, where the partial application stands) -/
+theorem call_partial_bound (fc : FunCall) (h : fc.args.length < fc.paramTypes.length) :
+    ∃ e, fcToGo fc = some e ∧
+      cloOf e = .closure
+        ((restNames (fc.paramTypes.length - fc.args.length)).zip ((fc.paramTypes.drop fc.args.length).map toGo))
+        (toGo fc.result) (!isUnit fc.result) fc.callee
+        ((paArgs 0 fc.args fc.inert).1 ++ restNames (fc.paramTypes.length - fc.args.length)) ∧
+      (e = cloOf e ∨ e = .bound (paArgs 0 fc.args fc.inert).2 (cloOf e)) := by
+  simp only [fcToGo, h, Nat.not_lt_of_gt h, if_true, if_false, List.length_drop]
+  cases hemp : (paArgs 0 fc.args fc.inert).2.isEmpty with
+  | true => exact ⟨_, rfl, rfl, Or.inl rfl⟩
+  | false => exact ⟨_, rfl, rfl, Or.inr rfl⟩
 
 /-- explicit type arguments given at the call site are carried by the emitted callee in every call
 form: `f[T1, T2](…)` directly, and inside the closure of an under-application / pipe -/
 theorem call_carries_type_args (fc : FunCall) (t : FT) (ts : List FT) (h : fc.targs = t :: ts)
     (hle : fc.args.length ≤ fc.paramTypes.length) :
     ∃ e, fcToGo fc = some e ∧
-      (match e with
-       | .call c _ => c | .closure _ _ _ c _ => c) = fc.name ++ "[" ++ ", ".intercalate ((t :: ts).map toGo) ++ "]" := by
+      (match cloOf e with
+       | .call c _ => c | .closure _ _ _ c _ => c | .bound _ _ => "") = fc.name ++ "[" ++ ", ".intercalate ((t :: ts).map toGo) ++ "]" := by
   have hc : fc.callee = fc.name ++ "[" ++ ", ".intercalate ((t :: ts).map toGo) ++ "]" := by
     simp [FunCall.callee, varRefToGo, h]
   by_cases hlt : fc.args.length < fc.paramTypes.length
-  · exact ⟨_, call_partial fc hlt, hc⟩
+  · obtain ⟨e, he, hclo, _⟩ := call_partial_bound fc hlt
+    exact ⟨e, he, by rw [hclo]; exact hc⟩
   · have heq : fc.args.length = fc.paramTypes.length := by omega
     refine ⟨.call fc.callee (if fc.unitArgOnly then [] else fc.args), ?_, hc⟩
     simp [fcToGo, heq]
@@ -111,11 +157,12 @@ theorem restNames_length (n : Nat) : (restNames n).length = n := by simp [restNa
 
 /-- the closure takes exactly the missing parameters -/
 theorem call_partial_arity (fc : FunCall) (h : fc.args.length < fc.paramTypes.length) :
-    ∃ ps r hr c as, fcToGo fc = some (.closure ps r hr c as) ∧ ps.length = fc.paramTypes.length - fc.args.length ∧
-      as.length = fc.paramTypes.length := by
-  refine ⟨_, _, _, _, _, call_partial fc h, ?_, ?_⟩
+    ∃ e ps r hr c as, fcToGo fc = some e ∧ cloOf e = .closure ps r hr c as ∧
+      ps.length = fc.paramTypes.length - fc.args.length ∧ as.length = fc.paramTypes.length := by
+  obtain ⟨e, he, hclo, _⟩ := call_partial_bound fc h
+  refine ⟨e, _, _, _, _, _, he, hclo, ?_, ?_⟩
   · simp [restNames_length, List.length_drop]
-  · simp [restNames_length]; omega
+  · simp [restNames_length, paArgs_length]; omega
 
 /-- too many arguments is rejected -/
 theorem call_too_many (fc : FunCall) (h : fc.paramTypes.length < fc.args.length) : fcToGo fc = none := by
